@@ -645,6 +645,37 @@ class NPProxy:
             return _map(f, a)
         return np.clip(a, lo, hi, **kw)
 
+    def _like(self, a, fill, dtype=None):
+        """zeros_like / ones_like / full_like: a new array of the shape AND element type of `a`"""
+        if not isinstance(a, SymArr) and not has_sym(a):
+            return None
+        src = a if isinstance(a, SymArr) else oarr(a).view(SymArr)
+        out = np.empty(src.shape, dtype=object)
+        out[...] = fill
+        out = out.view(SymArr)
+        if dtype is not None:
+            out._real_only = _is_real_dtype(dtype)
+        else:
+            out._int_only = bool(getattr(src, '_int_only', False))
+            out._real_only = not builtins.any(isinstance(e, (SymC, complex, np.complexfloating)) for e in np.asarray(src).flat) and not out._int_only
+        return out
+
+    def zeros_like(self, a, dtype=None, **kw):
+        r = self._like(a, 0, dtype)
+        return np.zeros_like(a, dtype=dtype, **kw) if r is None else r
+
+    def ones_like(self, a, dtype=None, **kw):
+        r = self._like(a, 1, dtype)
+        return np.ones_like(a, dtype=dtype, **kw) if r is None else r
+
+    def empty_like(self, a, dtype=None, **kw):
+        r = self._like(a, 0, dtype)
+        return np.empty_like(a, dtype=dtype, **kw) if r is None else r
+
+    def full_like(self, a, fill_value, dtype=None, **kw):
+        r = self._like(a, fill_value, dtype)
+        return np.full_like(a, fill_value, dtype=dtype, **kw) if r is None else r
+
     def interp(self, x, xp, fp, left=None, right=None, period=None):
         """piecewise-linear interpolation, clamped outside [xp[0], xp[-1]] (NumPy's rule); xp concrete and increasing"""
         if not (has_sym(x) or has_sym(xp) or has_sym(fp)):
